@@ -152,8 +152,9 @@ def check_merge(ctx, plain, out, info, path=()):
         b_ranges = []
         ia = 0
         for c in out["ch"]:
-            if c["c"] == "Range" and not (ia < len(a_o) and a_o[ia]["c"] == "Range" and
-                                           common.strip_tree(a_o[ia]) == common.strip_tree(c)):
+            # (an operand that is not a one-sided range passes through as it is, layout included: a merged range that
+            # happens to have the same bounds as a later closed operand is not taken for it)
+            if c["c"] == "Range" and not (ia < len(a_o) and a_o[ia]["c"] == "Range" and a_o[ia] == c):
                 b_ranges.append(c)
             else:
                 b_o.append(c)
